@@ -967,6 +967,18 @@ class C11:
         environments: real threads under the seeded baton scheduler, pre-empted at every line of
         the lexer / parser / environment modules (where the process-wide memo caches live)."""
         st = res["stats"]
+        # The scheduler pre-empts at line events inside lex.py / parser.py / environment.py; whether a
+        # memoised lexer or parser is found there or has to be built changes how many lines run, i.e.
+        # the schedule.  So that a thread-mode run is a pure function of its scenario (and not of what
+        # this worker happened to run before), it starts from empty memo caches.
+        import liquid.environment as _envmod
+        import liquid.lex as _lexmod
+        import liquid.parser as _parsermod
+        for fn in (getattr(_lexmod, "get_lexer", None), getattr(_parsermod, "get_parser", None),
+                   getattr(_envmod, "get_implicit_environment", None)):
+            clear = getattr(fn, "cache_clear", None)
+            if clear is not None:
+                clear()
         rng = Rng(sc["tsched_seed"], ("tsched",))
         sim = SimThreads(rng, switch_p=sc["switch_p"], trace_files=self.TRACE_FILES, step_cap=6_000_000)
         n = sc["threads"]
